@@ -1,10 +1,11 @@
 """C05 — Bounds, geometric features and anchor points agree with the coordinates."""
+import math
 import typing
 from fractions import Fraction
 
 from ..core import Op, jkey
 from ..leanio import InfraError
-from ..rat import rat, frac, round_once_eq
+from ..rat import rat, frac, round_once_eq, tol_eq
 from .. import symtrace as st
 from .. import symx
 from ..symtrace import Sym
@@ -20,40 +21,65 @@ THEOREMS = [_T + n for n in [
     "C05_conversion_kind", "C05_conversion_lossless", "C05_conversion_vertex_set", "C05_conversion_box",
     "C05_features_consistent", "C05_features_nonneg", "C05_features_holds_iff", "C05_feature_table_total",
     "C05_points_table", "C05_points_delegated", "C05_points_inside", "C05_points_inside_geometry",
-    "C05_unknown_position_rejected"]]
+    "C05_unknown_position_rejected",
+    # review additions
+    "C05_conversion_calls", "C05_conversion_box_ring", "C05_conversion_ring_order",
+    "C05_points_degenerate", "C05_points_from_coordinates", "C05_vertex_inside", "C05_dispatch",
+    "C05_centroid_inside_partial", "C05_tame_types", "C05_getPoint_inside_partial",
+    "C05_centroid_point", "C05_centroid_time_stamp", "C05_centroid_box"]]
 LEVEL_TEXT = ("Lean theorems over the model: compute_bounds is exactly (min time, min freq, max time, max freq) over the "
               "coordinates (unique; time-only types over [0, MAX_FREQUENCY]; polygons: holes inside the shell envelope), it is "
-              "the envelope of the modelled shapely conversion, the conversion is lossless / vertex-set preserving and of the "
-              "right kind, every feature is what its name says of those bounds and the feature list is determined, the nine "
-              "named positions are the stated corner / edge midpoint / centre and lie inside the bounds, unknown names are "
-              "rejected. get_geometry_point (all positions) and every entry of _COMPUTE_FEATURES are re-derived from the source "
-              "on each run by path-exhaustive symbolic tracing and proved equal to the model for all inputs; tables (feature keys, "
-              "Positions literal, MAX_FREQUENCY) are re-extracted and checked by `decide`; all four code paths are run "
-              "differentially on all nine geometry types.")
-LEVEL_NOTE = ("Trusted: Lean kernel, symbolic tracer (ordered-field semantics; compute_bounds / geometry_to_shapely / Feature "
-              "stubbed), shapely `bounds` as min/max of the shell vertices, shapely ring closure. Unmodelled: shapely's centroid "
-              "and point_on_surface (only the post-condition `inside the bounds` is monitored, strictly), binary64 rounding of "
-              "`end - start` and `(a + b) / 2` off the dyadic grid (round-once comparison there). Model tied to the code by "
-              "regenerated obligations and generator-bounded correspondence.")
+              "the envelope of the modelled shapely conversion, the conversion is the shapely constructor call each "
+              "*_to_shapely makes, lossless / order- and vertex-set preserving and of the right kind (box ring vertex by "
+              "vertex), every feature is what its name says of those bounds and the feature list is determined, the nine "
+              "named positions are the stated corner / edge midpoint / centre, lie inside the bounds and coincide on degenerate "
+              "bounds, unknown names and unknown type tags are rejected; GEOS's centroid algorithm is modelled and the centroid "
+              "is proved inside the bounds for every shape without holes whose shells are fan-convex (all points, lines, "
+              "boxes, intervals, triangles, convex polygons; _partial: simple polygons with holes not proved, monitored), "
+              "point_on_surface of 0/1-dimensional shapes is a vertex (contract) hence inside. get_geometry_point (all eleven "
+              "positions), compute_bounds, compute_geometric_features on every type and every *_to_shapely are re-derived "
+              "from the source on each run by path-exhaustive symbolic tracing and proved equal to the model for all "
+              "(validated) inputs; tables (feature keys, Positions literal, MAX_FREQUENCY) are re-extracted and checked by "
+              "`decide`; all code paths are run differentially on all nine geometry types, on shared objects (sessions), "
+              "through every construction path, and across re-assignment / model_copy / deepcopy of the coordinates (histories).")
+LEVEL_NOTE = ("Trusted: Lean kernel, symbolic tracer (ordered-field semantics; shapely constructors / compute_bounds / "
+              "geometry_to_shapely / Feature replaced by recording or symbolic stand-ins, by identity of the objects), shapely "
+              "`bounds` as min/max of the shell vertices, shapely ring closure, GEOS segment length as sqrt(dx^2+dy^2) in "
+              "binary64 (parameter `len` of the centroid model, contract 0 <= len checked). Unmodelled: shapely's "
+              "point_on_surface for areal shapes (post-condition `inside the bounds` monitored, strictly), the centroid of "
+              "non-tame polygons is modelled and compared (tolerance 2^-40) but `inside` is only monitored there; binary64 "
+              "rounding of `end - start` and `(a + b) / 2` off the dyadic grid (round-once comparison with 2 ulp slack). "
+              "Model tied to the code by regenerated obligations and generator-bounded correspondence.")
 TECHNIQUE = ("Lean 4 proof over model; symbolic-trace equality obligations and table obligations regenerated from source; "
              "differential correspondence with Lean-evaluated property statements on the real I/O")
-RULE = ("geometries of all nine types (random on dyadic grids of several scales, polygons with holes, multi-geometries, "
-        "zero-extent and open-ring corner cases, arbitrary floats) x {compute_bounds, compute_geometric_features, shapely "
-        "conversion, every position name incl. unknown ones}; non-trivial = the implementation returned a value; "
-        "distinct = distinct (operation, input)")
+RULE = ("geometries of all nine types (random on dyadic grids of several scales, polygons with holes in both orientations, "
+        "multi-geometries, zero-extent, open-ring, closed-loop and self-intersecting corner cases, arbitrary floats) x "
+        "{compute_bounds, compute_geometric_features, shapely conversion, every position name incl. unknown ones, centroid "
+        "against GEOS's formula, sessions on one shared object through seven construction paths, histories of re-assigned / "
+        "copied objects, type dispatch}; non-trivial = the implementation returned a value; distinct = distinct (operation, input)")
 TRUSTED = ["shapely `bounds` = min/max over the vertices of the converted shape (polygon: shell)",
-           "shapely LinearRing closure rule (open ring or closed 3-vertex ring gets its first vertex appended)",
-           "symbolic tracer stubs: compute_bounds -> symbolic 4-tuple, geometry_to_shapely -> object with symbolic "
-           "`bounds` and three `geoms`, Feature -> (term, value) record"]
+           "shapely LinearRing closure rule (open ring or closed 3-vertex ring gets its first vertex appended); "
+           "`ShCall.realize` (what shapely builds from a constructor call), compared differentially by the `shape` op",
+           "GEOS Centroid: fan triangles about the first ring vertex, ring orientation = sign of the fan sum (simple rings), "
+           "area > length > points fallback; segment length sqrt(dx*dx+dy*dy) in binary64 supplied by the harness",
+           "symbolic tracer stand-ins: compute_bounds -> symbolic 4-tuple, geometry_to_shapely -> object with symbolic "
+           "`bounds`, `centroid`, `point_on_surface` and three `geoms`, Feature -> (term, value) record, shapely "
+           "constructors -> recorded calls; geometries built with model_construct (no validation) around symbolic coordinates"]
 ASSUMPTIONS = ["binary64 arithmetic is exact on the dyadic grids used (differences and half-sums of <= 30-bit dyadics)",
-               "ordered-field semantics for the symbolic ties (no rounding)",
+               "ordered-field semantics for the symbolic ties (no rounding); conversion ties range over validated "
+               "geometries (interval / box / line ordering as the data model's validators guarantee, stated as hypotheses)",
                "polygons have their holes inside the envelope of their shell (every OGC-valid polygon; evaluated in Lean "
-               "per input, the all-coordinates reading of the bounds clause is only asserted there)"]
+               "per input, the all-coordinates reading of the bounds clause is only asserted there)",
+               "GEOS's ring orientation (isCCW) equals the sign of the ring's area: true of simple rings; centroid values of "
+               "multi-ring shapes with a non-simple ring are not compared"]
 NOT_COMPARED = ["error messages (only the error class)",
-                "vertex order of the rectangle ring shapely builds for TimeInterval / BoundingBox (compared as a vertex set)",
-                "centroid / point_on_surface values (shapely's algorithms; only `inside the bounds` is monitored)",
+                "vertex order / corner repetition of the rectangle ring shapely builds for TimeInterval / BoundingBox "
+                "(compared exactly first, as a closed vertex set otherwise)",
+                "point_on_surface values (shapely's algorithm; `inside the bounds` monitored, `is a vertex` for 0/1-dimensional shapes)",
+                "centroid values of multi-ring shapes with a self-intersecting ring (orientation convention of GEOS not modelled)",
                 "polygons with a hole outside the shell envelope (OGC-invalid): bounds compared with the model "
-                "(shell only, as GEOS does), the all-coordinates clause is not asserted"]
+                "(shell only, as GEOS does), the all-coordinates clause is not asserted",
+                "the last 2 ulp of differences / half-sums off the dyadic grid (re-associated formulas round differently)"]
 
 TOL = "1/1099511627776"   # 2^-40
 BOUNDS_POS = ["bottom-left", "bottom-right", "top-left", "top-right", "center-left", "center-right",
@@ -76,7 +102,14 @@ def _norm(gj):
 
 def _impl_bounds(inp):
     from soundevent.geometry import compute_bounds
-    return {"val": [rat(x) for x in compute_bounds(gen_geom.to_data(inp["g"]))]}
+    return {"val": _bounds_json(compute_bounds(gen_geom.to_data(inp["g"])))}
+
+
+def _bounds_json(b):
+    b = list(b)
+    if len(b) != 4:
+        raise AssertionError("compute_bounds did not return four numbers")
+    return [rat(x) for x in b]
 
 
 def _term_name(term):
@@ -120,7 +153,10 @@ def _poly_json(p):
 
 def _impl_shape(inp):
     from soundevent.geometry import geometry_to_shapely
-    s = geometry_to_shapely(gen_geom.to_data(inp["g"]))
+    return {"val": _shape_json(geometry_to_shapely(gen_geom.to_data(inp["g"])))}
+
+
+def _shape_json(s):
     if s.has_z:
         raise AssertionError("3-D shape")
     k = s.geom_type
@@ -138,7 +174,7 @@ def _impl_shape(inp):
         v = {"kind": k, "parts": [_poly_json(g) for g in s.geoms]}
     else:
         v = {"kind": k}
-    return {"val": v}
+    return v
 
 
 # ---------------------------------------------------------------- comparisons and monitors
@@ -146,17 +182,24 @@ def _cmp_shape(inp, io, mo):
     if io == mo:
         return None
     if inp["g"]["type"] in ("TimeInterval", "BoundingBox") and "val" in io and "val" in mo:
+        # the rectangle: the property pins kind and corners, not which corner shapely starts at nor
+        # whether a degenerate rectangle repeats a corner
         a, b = io["val"], mo["val"]
         if (a.get("kind") == b.get("kind") == "Polygon" and a.get("holes") == b.get("holes") == []
                 and sorted(set(map(tuple, a["shell"]))) == sorted(set(map(tuple, b["shell"])))
-                and len(a["shell"]) == len(b["shell"]) and a["shell"][0] == a["shell"][-1]):
+                and 4 <= len(a["shell"]) <= 6 and a["shell"][0] == a["shell"][-1]):
             return None
     return "shapely conversion differs from the model (kind / structure / coordinates)"
 
 
 def _num_eq_round_once(a, b):
-    """a: impl rational string, b: model rational string; equal after one correct rounding"""
-    return a == b or round_once_eq(frac(b), float(frac(a)))
+    """a: impl rational string, b: model rational string; equal after one correct rounding, or within
+    2 ulp of that (an algebraically equal but re-associated formula, e.g. `s + (e - s) / 2` for the
+    midpoint, rounds differently; the property does not pin the rounding)"""
+    if a == b or round_once_eq(frac(b), float(frac(a))):
+        return True
+    fa, fb = float(frac(a)), float(frac(b))
+    return abs(fa - fb) <= 2 * math.ulp(fb)
 
 
 def _cmp_features_free(inp, io, mo):
@@ -224,14 +267,42 @@ def _excursion(inp, p):
     return float(ex), only_flat
 
 
+LOW_DIM = ("TimeStamp", "Point", "LineString", "MultiPoint", "MultiLineString")
+
+
+def _ogc_invalid(gj):
+    """polygonal geometry that shapely / GEOS calls invalid (self-intersecting ring, hole crossing or
+    outside its shell): computed from the coordinates, not through the code under test"""
+    if gj["type"] not in ("Polygon", "MultiPolygon"):
+        return False
+    import shapely
+    polys = [gj["coordinates"]] if gj["type"] == "Polygon" else gj["coordinates"]
+    try:
+        shp = [shapely.Polygon([(_f(x), _f(y)) for x, y in rings[0]],
+                               [[(_f(x), _f(y)) for x, y in r] for r in rings[1:]]) for rings in polys]
+        return not all(p_.is_valid for p_ in shp) or not shapely.MultiPolygon(shp).is_valid
+    except Exception:  # noqa: BLE001
+        return True
+
+
 def _holds_lib_point(ctx, inp, io):
     if "val" not in io:
         return f"{inp['pos']} raised on a valid geometry"
+    if inp["pos"] == "point_on_surface" and inp["g"]["type"] in LOW_DIM:
+        # contract behind C05_vertex_inside: for shapes of dimension 0 / 1 GEOS answers a vertex
+        v = ctx.model("is_vertex", {"g": inp["g"], "p": io["val"]})
+        ctx.contract("point_on_surface_is_vertex", v.get("val") is True, inp, io["val"],
+                     detail="point_on_surface of a point / line shape is not one of its vertices")
     r = ctx.model("inside", {"g": inp["g"], "p": io["val"], "tol": None})
     if r.get("val") is True:
         return None
     ex, flat = _excursion(inp, io["val"])
-    return f"{inp['pos']} outside the bounds; rel_excursion={ex:.3e} zero_extent_axis_only={flat}"
+    extra = ""
+    if inp["pos"] == "centroid" and _ogc_invalid(inp["g"]):
+        mo = ctx.model("centroid", _to_model_centroid(inp))
+        same = "val" in mo and all(tol_eq(frac(y), float(frac(x))) for x, y in zip(io["val"], mo["val"]))
+        extra = f" ogc_invalid_polygon=True geos_formula={same or not _orientation_free(inp['g'])}"
+    return f"{inp['pos']} outside the bounds; rel_excursion={ex:.3e} zero_extent_axis_only={flat}{extra}"
 
 
 def _to_model_lib(inp):
@@ -251,6 +322,315 @@ def _safe(fn):
     return wrapped
 
 
+# ---------------------------------------------------------------- review additions: centroid, sessions, dispatch
+def _seg_lens(gj):
+    """every segment of the converted shape with its binary64 length as GEOS computes it
+    (sqrt(dx*dx + dy*dy)): consecutive vertices of every line / ring, the closing segment of every
+    ring, the four sides of a box / interval, the vertical segment of a time stamp.  This is the
+    parameter `len` of the centroid model (its contract `0 <= len` is checked by the driver)."""
+    ty, c = gj["type"], gj["coordinates"]
+    mx = rat(M)
+    if ty == "TimeStamp":
+        lines = [[[c, "0"], [c, mx]]]
+    elif ty == "TimeInterval":
+        lines = [[[c[1], "0"], [c[1], mx], [c[0], mx], [c[0], "0"], [c[1], "0"]]]
+    elif ty == "BoundingBox":
+        a, l, b, h = c
+        lines = [[[b, l], [b, h], [a, h], [a, l], [b, l]]]
+    elif ty == "LineString":
+        lines = [c]
+    elif ty == "MultiLineString":
+        lines = c
+    elif ty == "Polygon":
+        lines = [r + [r[0]] for r in c]
+    elif ty == "MultiPolygon":
+        lines = [r + [r[0]] for poly in c for r in poly]
+    else:
+        lines = []
+    out, seen = [], set()
+    for ln in lines:
+        for p_, q_ in zip(ln, ln[1:]):
+            key = (tuple(p_), tuple(q_))
+            if key in seen:
+                continue
+            seen.add(key)
+            dx, dy = _f(p_[0]) - _f(q_[0]), _f(p_[1]) - _f(q_[1])
+            out.append([p_, q_, rat(math.sqrt(dx * dx + dy * dy))])
+    return out
+
+
+def _rings(gj):
+    if gj["type"] == "Polygon":
+        return list(gj["coordinates"])
+    if gj["type"] == "MultiPolygon":
+        return [r for poly in gj["coordinates"] for r in poly]
+    return []
+
+
+def _ring_simple(r):
+    import shapely
+    try:
+        pts = [(_f(x), _f(y)) for x, y in r]
+        if pts[0] != pts[-1]:
+            pts.append(pts[0])
+        return bool(shapely.LinearRing(pts).is_simple)
+    except Exception:  # noqa: BLE001
+        return False
+
+
+def _orientation_free(gj):
+    """the model takes a ring's orientation from the sign of its area, GEOS from `isCCW`; the two agree
+    on simple rings, and the orientation cancels when the shape has a single ring"""
+    rs = _rings(gj)
+    return len(rs) <= 1 or all(_ring_simple(r) for r in rs)
+
+
+def _self_intersecting(gj):
+    if gj["type"] not in ("Polygon", "MultiPolygon"):
+        return False
+    return not gen_geom.is_simple(gj)
+
+
+def _impl_centroid(inp):
+    return _impl_point({"g": inp["g"], "pos": "centroid"})
+
+
+def _to_model_centroid(inp):
+    return {"g": inp["g"], "lens": _seg_lens(inp["g"])}
+
+
+def _cmp_centroid(inp, io, mo):
+    if "val" not in io or "val" not in mo:
+        return None if io == mo else "centroid: implementation and model disagree"
+    if not _orientation_free(inp["g"]):
+        return None
+    for x, y in zip(io["val"], mo["val"]):
+        if not tol_eq(frac(y), float(frac(x))):
+            return f"centroid coordinate {float(frac(x))!r} is not GEOS's centroid formula {float(frac(y))!r} (tolerance 2^-40)"
+    return None
+
+
+SESSION_CALLS = ([{"op": "bounds"}, {"op": "features"}, {"op": "shape"}]
+                 + [{"op": "point", "pos": p_} for p_ in BOUNDS_POS]
+                 + [{"op": "bounds"}, {"op": "features"}, {"op": "point", "pos": "top-left"}])
+BUILDS = ["validate", "class", "json", "int", "numpy", "tuple", "copy"]
+
+
+def _tuples(c):
+    return tuple(_tuples(x) for x in c) if isinstance(c, list) else c
+
+
+def _build(gj, how):
+    """the same geometry value through another construction path of the data model"""
+    from soundevent import data
+    cls = getattr(data, gj["type"])
+    c = gen_geom.coords_float(gj)
+    if how == "class":
+        return cls(coordinates=c)
+    if how == "json":
+        import json
+        return data.geometry_validate(json.dumps({"type": gj["type"], "coordinates": c}), mode="json")
+    if how == "int":
+        def conv(x):
+            if isinstance(x, list):
+                return [conv(y) for y in x]
+            return int(x) if float(x).is_integer() else x
+        return cls(coordinates=conv(c))
+    if how == "numpy":
+        import numpy as np
+
+        def conv(x):
+            if isinstance(x, list):
+                return [conv(y) for y in x]
+            return np.float64(x)
+        return cls(coordinates=conv(c))
+    if how == "tuple":
+        return cls(coordinates=_tuples(c))
+    if how == "copy":
+        return gen_geom.to_data(gj).model_copy(deep=True)
+    return gen_geom.to_data(gj)
+
+
+def _call_raw(geom, call):
+    """one operation on an existing geometry object: the raw result"""
+    from soundevent.geometry import compute_bounds, get_geometry_point, geometry_to_shapely
+    from soundevent.geometry.features import compute_geometric_features
+    o = call["op"]
+    if o == "bounds":
+        return compute_bounds(geom)
+    if o == "features":
+        return compute_geometric_features(geom)
+    if o == "point":
+        return get_geometry_point(geom, call["pos"])
+    if o == "shape":
+        return geometry_to_shapely(geom)
+    raise AssertionError("unknown session call")
+
+
+def _canon_raw(call, r):
+    o = call["op"]
+    if o == "bounds":
+        return {"val": _bounds_json(r)}
+    if o == "features":
+        return {"val": [[_term_name(f.term), rat(f.value)] for f in r]}
+    if o == "point":
+        if len(r) != 2:
+            raise AssertionError("not a pair")
+        return {"val": [rat(r[0]), rat(r[1])]}
+    return {"val": _shape_json(r)}
+
+
+def _impl_session(inp):
+    """all operations on ONE geometry object, interleaved with the same operations on another
+    geometry; the raw results are kept until every call has been made and only then read (state
+    carried between calls, caches, shared result objects, mutation of the argument all show up
+    here); the last entry is the object's own coordinates after all calls"""
+    geom = _build(inp["g"], inp.get("build", "validate"))
+    other = gen_geom.to_data(inp["other"]) if inp.get("other") else None
+    raw = []
+    for i, call in enumerate(inp["calls"]):
+        def on_other():
+            if other is not None:
+                try:
+                    _call_raw(other, call)
+                except Exception:  # noqa: BLE001
+                    pass
+        if i % 2 == 0:
+            on_other()
+        raw.append(_call_raw(geom, call))
+        on_other()
+    outs = [_canon_raw(c, r) for c, r in zip(inp["calls"], raw)]
+    outs.append(gen_geom.from_data(geom))
+    return {"val": outs}
+
+
+def _to_model_session(inp):
+    return {"g": inp["g"], "calls": inp["calls"]}
+
+
+def _cmp_session(inp, io, mo):
+    if io == mo:
+        return None
+    if "val" in io and "val" in mo and len(io["val"]) == len(mo["val"]):
+        for i, (a, b) in enumerate(zip(io["val"], mo["val"])):
+            if a == b:
+                continue
+            what = inp["calls"][i] if i < len(inp["calls"]) else "the geometry itself after the calls (argument mutated)"
+            if isinstance(what, dict) and what.get("op") == "shape" and _cmp_shape(inp, a, b) is None:
+                continue
+            return f"call #{i} {what} on a shared object (build={inp.get('build', 'validate')}) differs from the model"
+        return None
+    return "session: implementation and model disagree"
+
+
+MUTATIONS = ["assign", "copy_update", "deep_copy_update", "deepcopy_assign", "copy_assign"]
+
+
+def _impl_history(inp):
+    """a sequence of steps on one geometry object: queries, and re-assignment of the coordinates /
+    model_copy(update=...) / copy + assignment with new valid coordinates of the same type; every
+    query must answer for the coordinates the object has at that step (geometries are not frozen,
+    so nothing may be remembered across a change of the coordinates)"""
+    import copy
+    obj, outs = None, []
+    for step in inp["steps"]:
+        do = step["do"]
+        if do == "query":
+            raw = [_call_raw(obj, c) for c in step["calls"]]
+            outs.append([_canon_raw(c, r) for c, r in zip(step["calls"], raw)] + [gen_geom.from_data(obj)])
+            continue
+        if do == "new":
+            obj = _build(step["g"], step.get("build", "validate"))
+            continue
+        coords = gen_geom.coords_float(step["g"])
+        if do == "assign":
+            obj.coordinates = coords
+        elif do == "copy_update":
+            obj = obj.model_copy(update={"coordinates": coords})
+        elif do == "deep_copy_update":
+            obj = obj.model_copy(update={"coordinates": coords}, deep=True)
+        elif do == "deepcopy_assign":
+            obj = copy.deepcopy(obj)
+            obj.coordinates = coords
+        elif do == "copy_assign":
+            obj = copy.copy(obj)
+            obj.coordinates = coords
+        else:
+            raise AssertionError("unknown history step")
+    return {"val": outs}
+
+
+def _cmp_history(inp, io, mo):
+    if io == mo:
+        return None
+    if "val" in io and "val" in mo and len(io["val"]) == len(mo["val"]):
+        queries = [s_ for s_ in inp["steps"] if s_["do"] == "query"]
+        k = 0
+        trail = []
+        for s_ in inp["steps"]:
+            if s_["do"] != "query":
+                trail.append(s_["do"])
+                continue
+            a, b = io["val"][k], mo["val"][k]
+            k += 1
+            for i, (x, y) in enumerate(zip(a, b)):
+                if x == y:
+                    continue
+                what = s_["calls"][i] if i < len(s_["calls"]) else "the coordinates of the object"
+                if isinstance(what, dict) and what.get("op") == "shape" and _cmp_shape({"g": b[-1]}, x, y) is None:
+                    continue
+                return (f"after {' -> '.join(trail)}: {what} does not answer for the coordinates the object has now "
+                        f"(query #{k} of {len(queries)})")
+        return None
+    return "history: implementation and model disagree"
+
+
+class _Foreign:
+    """a geometry-like object of a type the library does not know"""
+
+    def __init__(self, tag):
+        self.type = tag
+        self.coordinates = [0.0, 0.0]
+
+
+def _impl_dispatch(inp):
+    """both dispatching functions on a type tag: a known tag on a sample geometry of that type,
+    an unknown one on a foreign object"""
+    from soundevent.geometry import geometry_to_shapely
+    from soundevent.geometry.features import compute_geometric_features
+    tag = inp["tag"]
+    if tag in gen_geom.TYPES:
+        geom = gen_geom.to_data(_SAMPLE[tag])
+    else:
+        geom = _Foreign(tag)
+    errs = []
+    for fn in (geometry_to_shapely, compute_geometric_features):
+        try:
+            fn(geom)
+            errs.append(None)
+        except NotImplementedError:
+            errs.append("notimpl")
+    if errs == [None, None]:
+        return {"val": None}
+    if errs == ["notimpl", "notimpl"]:
+        return {"raise": "notimpl"}
+    return {"val": errs}
+
+
+_SAMPLE = {
+    "TimeStamp": {"type": "TimeStamp", "coordinates": "1"},
+    "TimeInterval": {"type": "TimeInterval", "coordinates": ["1", "2"]},
+    "Point": {"type": "Point", "coordinates": ["1", "2"]},
+    "LineString": {"type": "LineString", "coordinates": [["1", "2"], ["3", "4"]]},
+    "Polygon": {"type": "Polygon", "coordinates": [[["1", "2"], ["3", "2"], ["2", "4"], ["1", "2"]]]},
+    "BoundingBox": {"type": "BoundingBox", "coordinates": ["1", "2", "3", "4"]},
+    "MultiPoint": {"type": "MultiPoint", "coordinates": [["1", "2"]]},
+    "MultiLineString": {"type": "MultiLineString", "coordinates": [[["1", "2"], ["3", "4"]]]},
+    "MultiPolygon": {"type": "MultiPolygon", "coordinates": [[[["1", "2"], ["3", "2"], ["2", "4"], ["1", "2"]]]]},
+}
+UNKNOWN_TAGS = ["Circle", "", "timestamp", "Boundingbox", "GeometryCollection", "LinearRing", "Point "]
+
+
 OPS = {
     "bounds": Op("bounds", _impl_bounds, holds=_safe(_holds_bounds)),
     "features": Op("features", _impl_features, holds=_safe(_holds_features)),
@@ -261,6 +641,12 @@ OPS = {
     "point_free": Op("point_free", _impl_point, compare=_cmp_point_free, mode="round-once", model_op="point"),
     "lib_point": Op("lib_point", _impl_lib_point, to_model=_to_model_lib, holds=_safe(_holds_lib_point),
                     mode="tolerance", model_op="point"),
+    # review additions
+    "centroid": Op("centroid", _impl_centroid, to_model=_to_model_centroid, compare=_cmp_centroid,
+                   determined=False, mode="tolerance"),
+    "session": Op("session", _impl_session, to_model=_to_model_session, compare=_cmp_session),
+    "history": Op("history", _impl_history, compare=_cmp_history),
+    "dispatch": Op("dispatch", _impl_dispatch, nontrivial=lambda inp, out: True, determined=False),
 }
 
 
@@ -276,7 +662,19 @@ def _rounding_excursion(failure, m):
     return 0 < ex <= float(Fraction(m["max_rel_excursion"]))
 
 
-FINDING_MATCHERS = {"rounding_excursion": _rounding_excursion}
+def _invalid_polygon_centroid(failure, m):
+    """known finding: the centroid of an OGC-invalid (self-intersecting, ...) polygon the data model accepts
+    is GEOS's signed-area formula, which can lie anywhere -- only this position, only such polygons,
+    only when the value is the one the modelled formula gives"""
+    if failure.kind != "property" or failure.inp.get("pos") != m.get("position"):
+        return False
+    if (failure.inp.get("g") or {}).get("type") not in ("Polygon", "MultiPolygon"):
+        return False
+    return "ogc_invalid_polygon=True geos_formula=True" in failure.detail
+
+
+FINDING_MATCHERS = {"rounding_excursion": _rounding_excursion,
+                    "invalid_polygon_centroid": _invalid_polygon_centroid}
 
 
 # ---------------------------------------------------------------- tie 1: tables
@@ -295,8 +693,10 @@ def _table_obligations(ctx):
     from soundevent import data
     positions = _positions(ops)
     if not positions:
-        ctx.fail("obligation", "positions_literal", detail="`Positions` literal not found in operations.py",
-                 extra={"op": "point"})
+        # a type alias: without it the guard of get_geometry_point is still observed name by name through the
+        # symbolic ties (all eleven names of the model and six unknown ones) and the `point` correspondence
+        ctx.note("`Positions` literal not found in operations.py: literal obligations not generated, the guard is "
+                 "observed through get_geometry_point only")
     else:
         ctx.obligation("positions_literal",
                        f"example : ({_lean_strs(positions)} : List String) = SE.Bnd.positionNames := by decide\n",
@@ -308,8 +708,10 @@ def _table_obligations(ctx):
                        f"(fun p => SE.Bnd.splitDash p.1 == p.2) = true := by decide\n", {"op": "point"})
     table = getattr(F, "_COMPUTE_FEATURES", None)
     if not isinstance(table, dict):
-        ctx.fail("obligation", "feature_table_keys", detail="`_COMPUTE_FEATURES` table not found in features.py",
-                 extra={"op": "features"})
+        # a private name: its absence is not a failure, the dispatch is observed through the public function
+        # (ties ext_features_<type>, ext_features_unknown_type and the `dispatch` correspondence)
+        ctx.note("`_COMPUTE_FEATURES` is not a dict in features.py: key-table obligation not generated, "
+                 "dispatch observed through compute_geometric_features only")
     else:
         keys = [str(k) for k in table.keys()]
         ctx.obligation("feature_table_keys",
@@ -347,17 +749,214 @@ class _StubGeometry:
         return None
 
 
-class _StubShape:
-    """what the stubbed geometry_to_shapely returns: symbolic `bounds`, three parts"""
+class _StubPointShape:
+    """a shapely Point stand-in carrying a symbolic coordinate pair"""
 
-    def __init__(self, bounds):
+    def __init__(self, xy):
+        self.coords = [tuple(xy)]
+        self.x, self.y = xy
+        self.geom_type = "Point"
+
+
+class _StubShape:
+    """what the stubbed geometry_to_shapely returns: symbolic `bounds`, three parts, symbolic
+    centroid / point on surface"""
+
+    def __init__(self, bounds, centroid=None, surface=None):
         self.bounds = bounds
         self.geoms = [None, None, None]
         self.geom_type = "Stub"
+        self._centroid, self._surface = centroid, surface
+
+    @property
+    def centroid(self):
+        if self._centroid is None:
+            raise st.Untraceable("centroid of a shape stub without one")
+        return _StubPointShape(self._centroid)
+
+    def point_on_surface(self):
+        if self._surface is None:
+            raise st.Untraceable("point_on_surface of a shape stub without one")
+        return _StubPointShape(self._surface)
+
+    representative_point = point_on_surface
+
+
+class _ModuleProxy:
+    """a module whose listed attributes are replaced, everything else passed through"""
+
+    def __init__(self, real, repl):
+        self.__dict__["_real"] = real
+        self.__dict__["_repl"] = repl
+
+    def __getattr__(self, name):
+        if name in self._repl:
+            return self._repl[name]
+        return getattr(self._real, name)
+
+
+class _Patched:
+    """context manager: in `module`, globals that ARE one of `by_identity`'s keys are replaced by the
+    mapped stub, globals that are one of the `modules` are replaced by a proxy with `attrs` overridden.
+    Observes what the code calls, not how it imported it."""
+
+    def __init__(self, module, by_identity, modules, attrs):
+        self.module, self.by_identity, self.modules, self.attrs = module, by_identity, modules, attrs
+        self.saved = {}
+
+    def __enter__(self):
+        for name, val in list(vars(self.module).items()):
+            if name.startswith("__"):
+                continue
+            repl = None
+            for real, stub in self.by_identity:
+                if val is real:
+                    repl = stub
+            for real in self.modules:
+                if val is real:
+                    repl = _ModuleProxy(real, self.attrs)
+            if repl is not None:
+                self.saved[name] = val
+                setattr(self.module, name, repl)
+        return self
+
+    def __exit__(self, *exc):
+        for name, val in self.saved.items():
+            setattr(self.module, name, val)
+        return False
+
+
+def _mk_geom(ty, coords, bounds=None):
+    """a geometry for tracing: a real `soundevent.data` object built without validation (so that
+    `isinstance` / `.type` dispatch both work) carrying symbolic coordinates; falls back to a stub"""
+    try:
+        from soundevent import data
+        g = getattr(data, ty).model_construct(coordinates=coords)
+        if getattr(g, "type", None) != ty:
+            raise ValueError("type tag")
+        object.__setattr__(g, "_bounds", bounds)
+        return g
+    except Exception:  # noqa: BLE001
+        return _StubGeometry(ty, coords, bounds)
+
+
+class _Call:
+    """a recorded shapely constructor call"""
+
+    def __init__(self, kind, *args):
+        self.kind, self.args = kind, args
+
+
+def _as_pts(c):
+    if isinstance(c, _Call) and c.kind == "lineString":
+        return c.args[0]
+    return [tuple(p_.args[0]) if isinstance(p_, _Call) else tuple(p_) for p_ in c]
+
+
+def _as_poly(x):
+    """an item of MultiPolygon's argument: a recorded Polygon call or a (shell, holes) pair"""
+    if isinstance(x, _Call) and x.kind == "polygon":
+        return x.args
+    shell, holes = x[0], (x[1] if len(x) > 1 else [])
+    return _as_pts(shell), [_as_pts(h) for h in (holes or [])]
+
+
+def _recorders():
+    """recording stand-ins for the shapely constructors `conversion.py` may call"""
+    def box(minx, miny, maxx, maxy, ccw=True, **kw):
+        if ccw is not True or kw:
+            raise st.Untraceable("box(ccw=False)")
+        return _Call("box", minx, miny, maxx, maxy)
+
+    def point(*a, **kw):
+        xy = a[0] if len(a) == 1 else a
+        return _Call("point", tuple(xy))
+
+    def linestring(coords, **kw):
+        return _Call("lineString", _as_pts(coords))
+
+    def linearring(coords, **kw):
+        return _as_pts(coords)
+
+    def polygon(shell=None, holes=None, **kw):
+        return _Call("polygon", _as_pts(shell), [_as_pts(h) for h in (holes or [])])
+
+    def multipoint(points, **kw):
+        return _Call("multiPoint", _as_pts(points))
+
+    def multilinestring(lines, **kw):
+        return _Call("multiLineString", [_as_pts(ln) for ln in lines])
+
+    def multipolygon(polys, **kw):
+        return _Call("multiPolygon", [_as_poly(x) for x in polys])
+
+    return {"box": box, "Point": point, "points": point, "LineString": linestring, "linestrings": linestring,
+            "LinearRing": linearring, "linearrings": linearring, "Polygon": polygon, "polygons": polygon,
+            "MultiPoint": multipoint, "multipoints": multipoint, "MultiLineString": multilinestring,
+            "multilinestrings": multilinestring, "MultiPolygon": multipolygon, "multipolygons": multipolygon}
+
+
+def _lean_pt(p_):
+    return f"({symx.num(p_[0])}, {symx.num(p_[1])})"
+
+
+def _lean_pts(ps):
+    return "[" + ", ".join(_lean_pt(p_) for p_ in ps) + "]"
+
+
+def _lean_rings(rs):
+    return "[" + ", ".join(_lean_pts(r) for r in rs) + "]"
+
+
+def _call_leaf(v):
+    """recorded constructor call -> Lean `some (ShCall.realize <call>)`"""
+    if not isinstance(v, _Call):
+        raise st.Untraceable(f"conversion returned {type(v).__name__}, not a recorded shapely call")
+    k, a = v.kind, v.args
+    C = "SE.Bnd.ShCall."
+    if k == "box":
+        t = f"{C}box {symx.num(a[0])} {symx.num(a[1])} {symx.num(a[2])} {symx.num(a[3])}"
+    elif k == "point":
+        t = f"{C}point {_lean_pt(a[0])}"
+    elif k in ("lineString", "multiPoint"):
+        t = f"{C}{k} {_lean_pts(a[0])}"
+    elif k == "polygon":
+        t = f"{C}polygon {_lean_pts(a[0])} {_lean_rings(a[1])}"
+    elif k == "multiLineString":
+        t = f"{C}multiLineString {_lean_rings(a[0])}"
+    elif k == "multiPolygon":
+        t = f"{C}multiPolygon [" + ", ".join(f"({_lean_pts(sh)}, {_lean_rings(hs)})" for sh, hs in a[0]) + "]"
+    else:
+        raise st.Untraceable(k)
+    return f"some (SE.Bnd.ShCall.realize ({t}))"
+
+
+def _sym_pts(prefix, n):
+    names = [f"{prefix}{i}{c}" for i in range(n) for c in "tf"]
+    return names, [[Sym.var(f"{prefix}{i}t"), Sym.var(f"{prefix}{i}f")] for i in range(n)]
 
 
 _FEAT_SIMP = ("simp [SE.Bnd.features, SE.Bnd.shapeFeatures, SE.Bnd.boundsFeatures, SE.Bnd.fDuration, SE.Bnd.fLow, "
               "SE.Bnd.fHigh, SE.Bnd.fBandwidth, SE.Bnd.fSegments]")
+
+
+def _ops_patch(ops, b, centroid=None, surface=None):
+    """operations.py with compute_bounds / geometry_to_shapely / the shapely functions it may use
+    replaced by symbolic stand-ins (by identity of the objects, however they were imported)"""
+    import shapely
+    attrs = {"point_on_surface": lambda g, **kw: g.point_on_surface(),
+             "centroid": lambda g, **kw: g.centroid,
+             "bounds": lambda g, **kw: g.bounds}
+    by_id = []
+    import soundevent.geometry.conversion as convmod
+    conv_stub = lambda g: _StubShape(g._bounds, centroid, surface)   # noqa: E731
+    by_id.append((convmod.geometry_to_shapely, conv_stub))
+    for n, f in attrs.items():
+        real = getattr(shapely, n, None)
+        if real is not None:
+            by_id.append((real, f))
+    # also when reached through a module object (`conversion.geometry_to_shapely(...)`, `shapely.bounds(...)`)
+    return by_id, [shapely, convmod], dict(attrs, geometry_to_shapely=conv_stub)
 
 
 def _symbolic_ties(ctx):
@@ -365,35 +964,44 @@ def _symbolic_ties(ctx):
     import soundevent.geometry.features as F
     BV = ["st", "lo", "en", "hi"]
     b = tuple(Sym.var(n) for n in BV)
-    # --- get_geometry_point with compute_bounds stubbed: every name of the literal and unknown ones
-    G = _StubGeometry("BoundingBox", b, b)
-    orig = ops.compute_bounds
-    ops.compute_bounds = lambda g: g._bounds
-    try:
+    # --- get_geometry_point with compute_bounds (and the conversion) stubbed: every name of the
+    #     literal and unknown ones
+    G = _mk_geom("BoundingBox", list(b), b)
+    by_id, mods, attrs = _ops_patch(ops, b)
+    cb = getattr(ops, "compute_bounds", None)
+    with _Patched(ops, by_id + ([(cb, lambda g: g._bounds)] if cb is not None else []), mods, attrs):
         positions = [p for p in (_positions(ops) or BOUNDS_POS) if p not in LIB_POS]
         for pos in positions + UNKNOWN_POS[:6]:
             name = "ext_point_" + "".join(c if c.isalnum() else "_" for c in pos) + ("" if pos in positions else "_unknown")
             ctx.sym_tie(name, lambda pos=pos: tuple(ops.get_geometry_point(G, pos)), BV, "Rat × Rat",
                         f'(SE.Bnd.pointAt (fun _ => (0, 0)) {_lean_strs([pos])[1:-1]} ⟨st, lo, en, hi⟩).toOption',
-                        tactic=f"unfold {name}\n  first | rfl | decide | (simp [SE.Bnd.pointAt, SE.Bnd.positionNames]; done)",
+                        tactic=f"unfold {name}\n  first | rfl | decide | (simp [SE.Bnd.pointAt, SE.Bnd.positionNames]; done)"
+                               f" | (simp [SE.Bnd.pointAt, SE.Bnd.positionNames, Except.toOption, SE.Bnd.splitDash, "
+                               f"SE.Bnd.splitAux, SE.Bnd.timeSel, SE.Bnd.freqSel] <;> (try constructor) <;> ring)",
                         meta={"op": "point"}, catch=(ValueError, KeyError))
-    finally:
-        ops.compute_bounds = orig
-    # --- every entry of _COMPUTE_FEATURES, through the table (a wrong row is a wrong function)
+    ctx.stage("symbolic-ties-delegation", _delegation_ties, ctx)
+    ctx.stage("symbolic-ties-conversion", _conversion_ties, ctx)
+    # --- compute_geometric_features on every type (through the public function: a wrong row of the
+    #     dispatch table is a wrong function)
     t, s, e, lo_, hi_ = Sym.var("t"), Sym.var("s"), Sym.var("e"), Sym.var("l"), Sym.var("h")
     closed = {
         "TimeStamp": (["t"], t, "SE.Bnd.features (.timeStamp t)"),
         "TimeInterval": (["s", "e"], (s, e), "SE.Bnd.features (.timeInterval s e)"),
         "BoundingBox": (["s", "l", "e", "h"], (s, lo_, e, hi_), "SE.Bnd.features (.boundingBox s l e h)"),
     }
-    table = getattr(F, "_COMPUTE_FEATURES", None)
-    if not isinstance(table, dict):
-        ctx.fail("obligation", "ext_features", detail="`_COMPUTE_FEATURES` table not found", extra={"op": "features"})
-        return
-    orig_feat, orig_conv = getattr(F, "Feature", None), getattr(F, "geometry_to_shapely", None)
-    F.Feature = lambda term, value: (term, value)
-    F.geometry_to_shapely = lambda g: _StubShape(g._bounds)
-    try:
+    import shapely
+    import soundevent.geometry.conversion as convmod
+    from soundevent import data as datamod
+    feat_stub = lambda term=None, value=None, **kw: (term, value)   # noqa: E731
+    conv_stub = lambda g: _StubShape(g._bounds)   # noqa: E731
+    by_id = [(datamod.Feature, feat_stub), (convmod.geometry_to_shapely, conv_stub)]
+    attrs = {"bounds": lambda g, **kw: g.bounds, "get_num_geometries": lambda g, **kw: len(g.geoms)}
+    for n, f in attrs.items():
+        real = getattr(shapely, n, None)
+        if real is not None:
+            by_id.append((real, f))
+    attrs = dict(attrs, geometry_to_shapely=conv_stub, Feature=feat_stub)
+    with _Patched(F, by_id, [shapely, convmod, datamod], attrs):
         for key in gen_geom.TYPES:
             name = "ext_features_" + key
             if key in closed:
@@ -402,19 +1010,96 @@ def _symbolic_ties(ctx):
                 # coordinates deliberately unusable: these functions must read the converted shape only
                 V, coords = BV, None
                 mterm = f'some (SE.Bnd.shapeFeatures "{key}" ⟨st, lo, en, hi⟩ 3)'
-            geo = _StubGeometry(key, coords, b)
-            symx.sym_tie(ctx, name, lambda key=key, geo=geo: F._COMPUTE_FEATURES[key](geo), V,
+            geo = _mk_geom(key, coords, b)
+            symx.sym_tie(ctx, name, lambda geo=geo: F.compute_geometric_features(geo), V,
                          "Option (List (String × Rat))", mterm, _feature_leaf,
-                         tactic=f"unfold {name}\n  first | rfl | ({_FEAT_SIMP}; done) | ({_FEAT_SIMP}; grind)",
+                         tactic=f"unfold {name}\n  first | rfl | ({_FEAT_SIMP}; done) | ({_FEAT_SIMP} <;> grind)",
                          meta={"op": "features"}, catch=(ValueError, NotImplementedError))
-        # compute_geometric_features dispatches on `geometry.type` through the table
-        geo = _StubGeometry("BoundingBox", (s, lo_, e, hi_), b)
-        symx.sym_tie(ctx, "ext_features_dispatch", lambda: F.compute_geometric_features(geo),
-                     ["s", "l", "e", "h"], "Option (List (String × Rat))", "SE.Bnd.features (.boundingBox s l e h)",
-                     _feature_leaf, tactic="unfold ext_features_dispatch\n  first | rfl | (simp [SE.Bnd.features]; done)",
-                     meta={"op": "features"}, catch=(ValueError, NotImplementedError))
-    finally:
-        F.Feature, F.geometry_to_shapely = orig_feat, orig_conv
+        # an unknown type tag is NotImplementedError
+        foreign = _StubGeometry("Circle", None, b)
+        symx.sym_tie(ctx, "ext_features_unknown_type", lambda: F.compute_geometric_features(foreign), BV,
+                     "Option (List (String × Rat))",
+                     '(match SE.Bnd.dispatch "Circle" with | .ok _ => some [] | .error _ => none)', _feature_leaf,
+                     tactic="unfold ext_features_unknown_type\n  first | rfl | decide | (simp [SE.Bnd.dispatch, SE.Bnd.featureTypes]; done)",
+                     meta={"op": "dispatch"}, catch=(NotImplementedError,))
+
+
+def _delegation_ties(ctx):
+    """compute_bounds returns the `bounds` of the converted shape; the `centroid` / `point_on_surface`
+    branches of get_geometry_point return shapely's answer for the converted shape, unchanged"""
+    import soundevent.geometry.operations as ops
+    BV = ["st", "lo", "en", "hi"]
+    b = tuple(Sym.var(n) for n in BV)
+    cx, cy, px, py = (Sym.var(n) for n in ("cx", "cy", "px", "py"))
+    by_id, mods, attrs = _ops_patch(ops, b, (cx, cy), (px, py))
+    G = _mk_geom("BoundingBox", list(b), b)
+    with _Patched(ops, by_id, mods, attrs):
+        ctx.sym_tie("ext_compute_bounds", lambda: tuple(ops.compute_bounds(G)), BV, "Rat × Rat × Rat × Rat",
+                    "some (st, lo, en, hi)", tactic="unfold ext_compute_bounds\n  first | rfl | (simp; done)",
+                    meta={"op": "bounds"}, catch=(ValueError, KeyError))
+        lib = 'fun n => if n = "centroid" then (cx, cy) else (px, py)'
+        for pos in LIB_POS:
+            name = "ext_point_" + pos
+            ctx.sym_tie(name, lambda pos=pos: tuple(ops.get_geometry_point(G, pos)),
+                        BV + ["cx", "cy", "px", "py"], "Rat × Rat",
+                        f'(SE.Bnd.pointAt ({lib}) "{pos}" ⟨st, lo, en, hi⟩).toOption',
+                        tactic=f"unfold {name}\n  first | rfl | decide | (simp [SE.Bnd.pointAt, SE.Bnd.positionNames]; done)",
+                        meta={"op": "lib_point"}, catch=(ValueError, KeyError))
+
+
+def _conversion_ties(ctx):
+    """every `*_to_shapely` through `geometry_to_shapely`, with the shapely constructors recording:
+    the call made on symbolic coordinates, realised by the model of shapely, is the model's shape"""
+    import shapely
+    import shapely.geometry as sg
+    import soundevent.geometry.conversion as conv
+    rec = _recorders()
+    by_id = []
+    for n, f in rec.items():
+        for mod in (shapely, sg):
+            real = getattr(mod, n, None)
+            if real is not None:
+                by_id.append((real, f))
+    t, s_, e_, l_, h_ = (Sym.var(n) for n in ("t", "s", "e", "l", "h"))
+    n3, p3 = _sym_pts("a", 3)
+    n4, p4 = _sym_pts("b", 4)
+    nh, ph = _sym_pts("c", 3)
+    nq, pq = _sym_pts("d", 3)
+    L = lambda ps: _lean_pts(ps)   # noqa: E731
+    cases = {
+        "TimeStamp": (["t"], t, "(.timeStamp t)"),
+        "TimeInterval": (["s", "e"], [s_, e_], "(.timeInterval s e)"),
+        "Point": (["t", "l"], [t, l_], "(.point t l)"),
+        "BoundingBox": (["s", "l", "e", "h"], [s_, l_, e_, h_], "(.boundingBox s l e h)"),
+        "LineString": (n3, p3, f"(.lineString {L(p3)})"),
+        "MultiPoint": (n3, p3, f"(.multiPoint {L(p3)})"),
+        "MultiLineString": (n3 + n4, [p3, p4], f"(.multiLineString [{L(p3)}, {L(p4)}])"),
+        "Polygon": (n4 + nh + nq, [p4, ph, pq], f"(.polygon [{L(p4)}, {L(ph)}, {L(pq)}])"),
+        "MultiPolygon": (n4 + nh + nq + n3, [[p4, ph], [pq], [p3]],
+                         f"(.multiPolygon [[{L(p4)}, {L(ph)}], [{L(pq)}], [{L(p3)}]])"),
+    }
+    # what the data model's validators guarantee about the order of the stored numbers (the symbolic
+    # inputs range over validated geometries only: a branch that no valid geometry takes is not a difference)
+    hyps = {
+        "TimeInterval": ["s ≤ e"], "BoundingBox": ["s ≤ e", "l ≤ h"],
+        "LineString": ["a0t ≤ a2t"], "MultiLineString": ["a0t < a2t", "b0t < b3t"],
+    }
+    simp = ("simp [SE.Bnd.toShape, SE.Bnd.ShCall.realize, SE.Bnd.polyOf, SE.Bnd.boxRing, SE.MAXF]")
+    with _Patched(conv, by_id, [shapely, sg], rec):
+        for key in gen_geom.TYPES:
+            V, coords, gterm = cases[key]
+            name = "ext_conversion_" + key
+            geo = _mk_geom(key, coords)
+            symx.sym_tie(ctx, name, lambda geo=geo: conv.geometry_to_shapely(geo), V, "Option SE.Bnd.Shape",
+                         f"some (SE.Bnd.toShape {gterm})", _call_leaf,
+                         tactic=f"unfold {name}\n  first | rfl | ({simp}; done) | ({simp} <;> grind) | (split <;> {simp} <;> grind)",
+                         meta={"op": "shape"}, catch=(ValueError, NotImplementedError), hyps=hyps.get(key, ()))
+        # an unknown type tag is NotImplementedError (model: `dispatch`)
+        foreign = _StubGeometry("Circle", [t, l_], None)
+        symx.sym_tie(ctx, "ext_conversion_unknown_type", lambda: conv.geometry_to_shapely(foreign), ["t", "l"],
+                     "Option SE.Bnd.Shape", '(match SE.Bnd.dispatch "Circle" with | .ok _ => some (SE.Bnd.Shape.point (t, l)) | .error _ => none)',
+                     _call_leaf, tactic="unfold ext_conversion_unknown_type\n  first | rfl | decide | (simp [SE.Bnd.dispatch, SE.Bnd.featureTypes]; done)",
+                     meta={"op": "dispatch"}, catch=(NotImplementedError,))
 
 
 # ---------------------------------------------------------------- tie 2 generators
@@ -459,6 +1144,11 @@ def special_geometries():
         _g("MultiPolygon", [[[[0, 0], [8, 0], [8, 8], [0, 8], [0, 0]], [[2, 2], [4, 2], [4, 4], [2, 4], [2, 2]]],
                             [[[9, 1], [12, 1], [12, 9], [9, 1]]], [[[13, 0], [14, 0], [14, 1], [13, 0]]]]),
         _g("MultiPolygon", [[[[9, 1], [12, 1], [12, 9], [9, 1]], [[0, 20], [1, 20], [1, 21], [0, 20]]]]),  # hole outside
+        # review: lines that return to their first vertex, repeated vertices, boxes / intervals on the axes
+        _g("LineString", [[1, 2], [3, 5], [1, 2]]), _g("LineString", [[1, 2], [1, 2], [3, 4], [3, 4], [5, 1]]),
+        _g("MultiLineString", [[[1, 2], [2, 2], [2, 2]], [[2, 3], [5, 7]]]),
+        _g("BoundingBox", [1, 0, 2, 0]), _g("BoundingBox", [0, 0, 2, 3]), _g("BoundingBox", [0, 5, 0, 9]),
+        _g("TimeInterval", [0, H]), _g("MultiPoint", [[0, 0], [0, 0], [0, 0]]),
     ]
     return [_norm(g) for g in out]
 
@@ -522,6 +1212,59 @@ def free_geometries(rng, n):
     return out
 
 
+def invalid_polygons(rng, n):
+    """polygons the data model accepts although a ring crosses itself (bow ties, figure eights), on the
+    grid: inside the property's quantifier ("every geometry"), outside OGC validity"""
+    fixed = [
+        _g("Polygon", [[[0, 0], [4, 4], [4, 0], [0, 3], [0, 0]]]),
+        _g("Polygon", [[[0, 0], [4, 4], [4, 0], [0, H * 9], [0, 0]]]),
+        _g("Polygon", [[[0, 0], [2, 2], [2, 0], [0, 2], [0, 0]]]),
+        _g("Polygon", [[[1, 1], [5, 1], [2, 3], [4, 3]]]),
+        _g("Polygon", [[[0, 0], [6, 0], [6, 4], [2, 4], [2, 2], [8, 2], [8, 6], [0, 6], [0, 0]]]),
+        _g("MultiPolygon", [[[[0, 0], [4, 4], [4, 0], [0, 3], [0, 0]]], [[[6, 1], [8, 1], [7, 3], [6, 1]]]]),
+    ]
+    out = [_norm(g) for g in fixed]
+    tries = 0
+    while len(out) < n and tries < 50 * n:
+        tries += 1
+        k = rng.randint(4, 6)
+        ring = [[Fraction(rng.randint(0, 64), 8), Fraction(rng.randint(0, 64), 8)] for _ in range(k)]
+        if rng.random() < 0.5:
+            ring.append(list(ring[0]))
+        g = {"type": "Polygon", "coordinates": gen_geom._enc([ring])}
+        if _ogc_invalid(g):
+            out.append(_norm(g))
+    return out
+
+
+def oriented_variants(rng, n):
+    """polygons with holes and multi-polygons with every combination of ring orientations (shapely keeps
+    the stored orientation; GEOS's centroid must not depend on it), lines with repeated vertices,
+    multi-lines with a zero-length line"""
+    out = []
+    for i in range(n):
+        rings = gen_geom._poly(rng, 0.0, 8.0, 0.0, 8.0, 3, holes=True)
+        rings = [list(reversed(r)) if rng.random() < 0.5 else r for r in rings]
+        g = {"type": "Polygon", "coordinates": gen_geom._enc(rings)}
+        if gen_geom.is_simple(g):
+            out.append(_norm(g))
+        a = gen_geom._poly(rng, 0.0, 3.0, 0.0, 8.0, 3, holes=(i % 2 == 0))
+        b = gen_geom._poly(rng, 4.0, 8.0, 0.0, 8.0, 3, holes=False)
+        polys = [[list(reversed(r)) if rng.random() < 0.5 else r for r in a], [list(reversed(r)) for r in b]]
+        g = {"type": "MultiPolygon", "coordinates": gen_geom._enc(polys)}
+        if gen_geom.is_simple(g):
+            out.append(_norm(g))
+    out += [_norm(g) for g in [
+        _g("LineString", [[1, 2], [1, 2], [3, 4], [3, 4], [5, 1]]),
+        _g("LineString", [[1, 2], [1, 2]]), _g("LineString", [[1, 2], [1, 2], [1, 2]]),
+        _g("MultiLineString", [[[1, 2], [2, 2], [2, 2]], [[2, 3], [5, 7]]]),
+        _g("MultiPolygon", [[[[1, 2], [2, 2], [3, 2], [1, 2]]], [[[4, 1], [6, 1], [5, 3], [4, 1]]]]),
+        _g("MultiPolygon", [[[[1, 2], [1, 2], [1, 2]]], [[[4, 1], [4, 1], [4, 1], [4, 1]]]]),
+        _g("Polygon", [[[0, 0], [8, 0], [8, 8], [0, 8]], [[1, 1], [1, 3], [3, 3], [3, 1]], [[5, 5], [7, 5], [7, 7]]]),
+    ]]
+    return out
+
+
 def _with_positions(geoms, names):
     return [{"g": g, "pos": p} for g in geoms for p in names]
 
@@ -569,6 +1312,78 @@ def _free_stage(ctx):
     ctx.run_cases(OPS["lib_point"], _with_positions(fg, LIB_POS))
 
 
+def _invalid_stage(ctx):
+    inv = invalid_polygons(ctx.rng, ctx.budget(60, 600))
+    _run_stream(ctx, inv, "ogc-invalid")
+    ctx.run_cases(OPS["centroid"], [{"g": g} for g in inv])
+
+
+def _centroid_stage(ctx):
+    """GEOS's centroid against the model (tolerance): all types, both ring orientations, degenerate
+    areas and lengths"""
+    geoms = (special_geometries() + oriented_variants(ctx.rng, ctx.budget(40, 400))
+             + random_geometries(ctx.rng, ctx.budget(450, 4500)) + free_geometries(ctx.rng, ctx.budget(180, 1800)))
+    _tally_geoms(ctx, geoms, "centroid")
+    fs = ctx.run_cases(OPS["centroid"], [{"g": g} for g in geoms])
+    skipped = sum(1 for g in geoms if not _orientation_free(g))
+    ctx.tally("centroid:not_compared(non-simple multi-ring)", skipped)
+    tame = ctx.model_many("tame", [{"g": g} for g in geoms])
+    ctx.tally("centroid:tame(theorem applies)", sum(1 for r in tame if r.get("val") is True))
+    return fs
+
+
+def _session_stage(ctx):
+    """all operations on one object, interleaved with another geometry, through every construction path"""
+    geoms = special_geometries() + random_geometries(ctx.rng, ctx.budget(180, 1800))
+    cases = []
+    for i, g in enumerate(geoms):
+        calls = list(SESSION_CALLS)
+        if i % 3 == 1:
+            ctx.rng.shuffle(calls)
+        cases.append({"g": g, "other": ctx.rng.choice(geoms), "build": BUILDS[i % len(BUILDS)], "calls": calls})
+        ctx.tally("session:build=" + BUILDS[i % len(BUILDS)])
+    ctx.run_cases(OPS["session"], cases)
+
+
+def histories(rng, n):
+    """per type: a fresh object, then changes of its coordinates (same type, new valid values) through
+    every route the data model offers, with queries before and after each change"""
+    out = []
+    for i in range(n):
+        ty = gen_geom.TYPES[i % len(gen_geom.TYPES)]
+        gs = [_norm(gen_geom.gen_valid(rng, ty, tmax=8.0, fmax=8.0, k=3)) for _ in range(4)]
+        if gs[1]["type"] != ty or any(g["type"] != ty for g in gs):
+            continue      # gen_valid fell back to a box
+        def query():
+            calls = [{"op": "bounds"}, {"op": "features"}, {"op": "shape"}]
+            calls += [{"op": "point", "pos": p_} for p_ in rng.sample(BOUNDS_POS, 3)]
+            rng.shuffle(calls)
+            return {"do": "query", "calls": calls[:rng.randint(1, len(calls))]}
+        steps = [{"do": "new", "g": gs[0], "build": rng.choice(BUILDS)}]
+        if rng.random() < 0.85:
+            steps.append(query())
+        for g in gs[1:rng.randint(2, 4)]:
+            steps.append({"do": MUTATIONS[(i + len(steps)) % len(MUTATIONS)] if rng.random() < 0.7
+                          else rng.choice(MUTATIONS), "g": g})
+            steps.append(query())
+        out.append({"steps": steps})
+    return out
+
+
+def _history_stage(ctx):
+    hs = histories(ctx.rng, ctx.budget(270, 2700))
+    for h in hs:
+        for s_ in h["steps"]:
+            if s_["do"] not in ("query", "new"):
+                ctx.tally("history:" + s_["do"])
+    ctx.run_cases(OPS["history"], hs)
+
+
+def _dispatch_stage(ctx):
+    ctx.run_cases(OPS["dispatch"], [{"tag": t_} for t_ in gen_geom.TYPES + UNKNOWN_TAGS])
+    ctx.exhaustive["type dispatch"] = f"the nine type tags and {len(UNKNOWN_TAGS)} foreign tags x both dispatching functions"
+
+
 def run(ctx):
     ctx.stage("tables", _table_obligations, ctx)
     ctx.stage("symbolic-ties", _symbolic_ties, ctx)
@@ -577,6 +1392,11 @@ def run(ctx):
     ctx.stage("special-cases", _special_stage, ctx)
     ctx.stage("grid-correspondence", _grid_stage, ctx)
     ctx.stage("free-correspondence", _free_stage, ctx)
+    ctx.stage("ogc-invalid-polygons", _invalid_stage, ctx)
+    ctx.stage("centroid-correspondence", _centroid_stage, ctx)
+    ctx.stage("sessions", _session_stage, ctx)
+    ctx.stage("histories", _history_stage, ctx)
+    ctx.stage("dispatch", _dispatch_stage, ctx)
 
 
 def search(ctx, failures):
